@@ -5,7 +5,7 @@
 id=$1; ck=$2; shift 2
 d=$(mktemp -d /tmp/mutXXXXXX)
 rsync -a --exclude .git /repo/ $d/r/
-(cd $d/r && patch -p1 -s < /verif/seeded/$id/patch.diff) || { echo "patch does not apply"; rm -rf $d; exit 2; }
-cd /verif && VERIF_REPO=$d/r VERIF_OUT=$d/o ./check $ck "$@" > /tmp/seed_$id.log 2>&1; rc=$?
+(cd $d/r && patch -p1 -s < ${VERIF_DIR:-/verif}/seeded/$id/patch.diff) || { echo "patch does not apply"; rm -rf $d; exit 2; }
+cd ${VERIF_DIR:-/verif} && VERIF_REPO=$d/r VERIF_OUT=$d/o ./check $ck "$@" > /tmp/seed_$id.log 2>&1; rc=$?
 echo "seed=$id check=$ck exit=$rc"; grep -c '^VIOLATION' /tmp/seed_$id.log; grep '^VIOLATION\|MACHINERY\|SPEC-DRIFT' /tmp/seed_$id.log | head -5 | cut -c1-400
 rm -rf $d
